@@ -44,15 +44,25 @@ def warmup():
 
 @st.composite
 def _case(draw):
-    ntow, nt = draw(st.sampled_from([2, 3, 1, 3, 2])), draw(st.sampled_from([2, 3, 4, 1, 2]))
+    import itertools
+
+    # shape, strategy and worker count likewise from one draw over their cross product
+    ntow, nt, strat_, workers_ = draw(st.sampled_from(list(itertools.product(
+        [2, 3, 1, 3, 2], [2, 3, 4, 1, 2], ["towers", "time", "both"], [2, 3, 5, 1, 4]))))
     pool = [[0.35, -120.0, 3.0, 200.0], [0.45, 80.0, 4.5, 75.0], [0.3, -60.0, 2.5, 310.0], [0.5, 1e9, 6.0, 135.0]]
     idx = draw(st.lists(st.integers(0, 3), min_size=nt, max_size=nt))
     met = [pool[i] for i in idx]
+    # the four switches that select code paths jointly (mode, precision, cache, parent thread setting) come from ONE draw over
+    # their cross product: independent draws leave the rarer corners (single precision + cache + footprint + one thread)
+    # nearly unvisited in 90 examples
+    import itertools
+
+    fp_, prec_, cache_, pth_ = draw(st.sampled_from(list(itertools.product([True, True, False], ["double", "single"], [True, False], [1, 4]))))
     return {
-        "ntow": ntow, "nt": nt, "met": met, "footprint": draw(st.sampled_from([True, True, False])),
-        "halo": draw(st.sampled_from(["default", "zero", "explicit"])), "precision": draw(st.sampled_from(["double", "double", "single"])),
-        "strategy": draw(st.sampled_from(["towers", "time", "both"])), "workers": draw(st.sampled_from([2, 3, 5, 1, 4])),
-        "parent_threads": draw(st.sampled_from([1, 4])), "use_cache": draw(st.booleans()),
+        "ntow": ntow, "nt": nt, "met": met, "footprint": fp_,
+        "halo": draw(st.sampled_from(["default", "zero", "explicit"])), "precision": prec_,
+        "strategy": strat_, "workers": workers_,
+        "parent_threads": pth_, "use_cache": cache_,
         # user labels; their sort order has nothing to do with the series order (newest first, unpadded hours,
         # day-first dates across New Year, descending integers)
         "timestamps": draw(st.sampled_from([False, "iso", "newest-first", "unpadded", "day-first", "int-desc"])),
